@@ -79,7 +79,7 @@ def _dsl_namespace():
         REG[qualname] = RtContract(qualname, kw)
 
     ns.update(dict(clause=clause, raises=raises, contract=contract, klass=lambda *a, **k: None,
-                   lemma=lambda *a, **k: None, contract_family=lambda *a, **k: None, record_override=lambda *a, **k: None, loop=lambda **k: k, __with_old__=WithOld,
+                   lemma=lambda *a, **k: None, contract_family=lambda *a, **k: None, record_override=lambda *a, **k: None, record=lambda *a, **k: None, loop=lambda **k: k, __with_old__=WithOld,
                    MutList=lambda x: ("MutList", x), MutDict=lambda x: ("MutDict", x), Opt=lambda x: ("Opt", x),
                    Val=lambda x: ("Val", x), MapOf=lambda k, v: ("MapOf", k, v), Raw=lambda x: ("Raw", x), PyTuple=lambda *x: ("PyTuple",) + x, Fn="Fn"))
     return ns
@@ -184,7 +184,7 @@ def call_lambda(fn, env, extra=None):
 
 def check_one(c: RtContract, args: tuple, only_serves=None):
     """Run the real function on args; returns (status, failures)   status: ok | skipped"""
-    owner, name, obj = resolve(c.qualname.split("@")[0])
+    owner, name, obj = resolve(c.qualname.split("@")[0].split("#")[0])
     argnames = list(c.args) if c.args else None
     is_init = name == "__init__"
     is_static = isinstance(obj, staticmethod)
